@@ -769,6 +769,36 @@ class Exec:
     def upvar_types(self, f):
         """{field index: type} of the environment fields a closure body reads through _1"""
         out = {}
+        # coroutine bodies reach their state through `_k = copy (_1.0: &mut {coroutine})` and `(*_k).N`
+        bases = {'_1'}
+        t0 = f.decl.get('_1', '')
+        is_coroutine = t0.startswith('Pin<&mut {')
+        if is_coroutine:
+            for sts in f.blocks.values():
+                for st, _ in sts:
+                    if st[0] == 'assign' and st[2][0] == 'use' and st[2][1][0] in ('copy', 'move'):
+                        pl = st[2][1][1]
+                        if pl[0] == '_1' and len(pl[1]) == 1 and pl[1][0][0] == 'field' and pl[1][0][1] == 0 and not st[1][1]:
+                            bases.add(st[1][0])
+
+        def scan_co(x):
+            if isinstance(x, tuple):
+                if len(x) == 2 and isinstance(x[0], str) and x[0] in bases and isinstance(x[1], tuple):
+                    projs = list(x[1])
+                    if x[0] == '_1' and projs and projs[0][0] == 'field':
+                        projs = projs[1:]
+                    if projs and projs[0][0] == 'deref' and len(projs) > 1 and projs[1][0] == 'field':
+                        out.setdefault(projs[1][1], projs[1][2])
+                for y in x:
+                    scan_co(y)
+            elif isinstance(x, list):
+                for y in x:
+                    scan_co(y)
+        if is_coroutine:
+            for sts in f.blocks.values():
+                for st, _ in sts:
+                    scan_co(st)
+            return out
 
         def scan(x):
             if isinstance(x, tuple):
